@@ -1661,7 +1661,7 @@ func (p *qP1) depth1(c *Ctx) {
 			}
 		}
 	}
-	for _, i := range qSample(c.Rng, len(sels), c.Pick(300, len(sels))) {
+	for _, i := range qSample(c.Rng, len(sels), c.Pick(1000, len(sels))) {
 		p.emitV(sels[i], false)
 	}
 	// reduce
@@ -1771,7 +1771,7 @@ func (p *qP1) depth2(c *Ctx) {
 		add(qv2Sel(rb, partner, x), false)
 		add(qv2Sel(rb, x, opt), false)
 	}
-	for _, i := range qSample(c.Rng, len(all), c.Pick(2000, len(all))) {
+	for _, i := range qSample(c.Rng, len(all), len(all)) {
 		p.emitV(all[i].v, all[i].mask)
 	}
 }
@@ -1820,7 +1820,7 @@ func genC10(c *Ctx) {
 	p.depth2(c)
 	// phase 2: seeded random
 	g := &qgen{r: c.Rng}
-	n := c.Pick(6000, 120000)
+	n := c.Pick(40000, 600000)
 	for i := 0; i < n; i++ {
 		text, nonconf := g.randomQ()
 		e.emit(text, nonconf)
